@@ -7,6 +7,7 @@
 package c10
 
 import (
+	"bytes"
 	"encoding/json"
 	"fmt"
 	"math/big"
@@ -536,6 +537,7 @@ type env struct {
 	chainID uint64
 	seen    map[string]map[uint64]bool // queue -> message ids already reported
 	known   map[uint64]rsnapObs        // last observation of every stored snapshot
+	raw     map[uint64][]byte          // every stored snapshot as first seen: all fields but Chains, protobuf bytes
 	lastID  uint64
 	tb      *stab
 }
@@ -604,7 +606,7 @@ func newEnv(t *testing.T) *env {
 	// knows the consensus and evm message types (InitFixture does not use its argument)
 	in := helper.InitFixture(ginkgo.GinkgoT())
 	ctx := in.Ctx.WithLogger(log.NewNopLogger())
-	return &env{in: in, ctx: ctx, chains: map[string]bool{}, scID: 1, seen: map[string]map[uint64]bool{}, known: map[uint64]rsnapObs{}, tb: newStab()}
+	return &env{in: in, ctx: ctx, chains: map[string]bool{}, scID: 1, seen: map[string]map[uint64]bool{}, known: map[uint64]rsnapObs{}, raw: map[uint64][]byte{}, tb: newStab()}
 }
 
 var valCodec = authcodec.NewBech32Codec(chainparams.ValidatorAddressPrefix)
@@ -849,6 +851,17 @@ func (e *env) observe(run *emit.Run, a *addrReg, hist *[]string, sent []sentMsg)
 		o := project(a, sn)
 		if o.ID != id {
 			run.Violate("C10:stored-snapshot-mutated", fmt.Sprintf("snapshot under key %d carries id %d", id, o.ID), replay())
+		}
+		// every field of the stored record but Chains (height, creation time, validator state, pubkeys,
+		// balances, traits, ...): byte-identical to what was stored first
+		cp := *sn
+		cp.Chains = nil
+		if bz, err := cp.Marshal(); err == nil {
+			if was, ok := e.raw[id]; ok && !bytes.Equal(was, bz) {
+				run.Violate("C10:stored-snapshot-mutated", fmt.Sprintf("snapshot %d: a field other than Chains changed after it was stored", id), replay())
+			} else if !ok {
+				e.raw[id] = bz
+			}
 		}
 		if old, ok := e.known[id]; ok {
 			okc := len(o.Chains) >= len(old.Chains)
@@ -1218,6 +1231,36 @@ func nearMissHistory(t *testing.T, run *emit.Run, a *addrReg, next *int64) {
 	h.finish(true)
 }
 
+// jitGateHistory: the just-in-time sender must not send a valset without quorum.  Snapshot 1 (three
+// equal validators) is live on chain-0; two of them then re-register their chain-0 account under a
+// chain type that is not evm (they still "support" the chain: MissingChains reads reference ids
+// only); snapshot 2 is stored, the keep-warm rule skips publishing it, and the job-triggered update
+// finds a newer current snapshot whose valset for chain-0 holds one third of the power.
+func jitGateHistory(t *testing.T, run *emit.Run, a *addrReg, next *int64) {
+	n0 := chainName(0)
+	h := newHist(t, run, a, next, []string{n0})
+	h.e.nvals = 3
+	h.addChain(n0)
+	h.activateChain(n0)
+	h.stakingSet(equalStake(3, 2_000_000))
+	acc := []rinfo{h.acct("evm", n0), h.acct("evm", n0), h.acct("evm", n0)}
+	for i := range acc {
+		h.register(i, []rinfo{acc[i]})
+	}
+	h.build() // snapshot 1, sent to chain-0 with three entries
+	h.setOnChain(1, n0)
+	for i := 1; i < 3; i++ {
+		b := acc[i]
+		b.Type = "solana"
+		h.register(i, []rinfo{b})
+	}
+	h.build() // snapshot 2 stored (account keys changed), not published (keep-warm)
+	before := h.sentN
+	h.jit(n0) // valset for chain-0: one entry, power floor(2^32/3) < threshold: nothing may be sent
+	run.Count("directed", fmt.Sprintf("jit-gate stored=%d sent-by-jit=%d", h.stored, h.sentN-before))
+	h.finish(true)
+}
+
 // worthyBoundaryHistory walks isNewSnapshotWorthy's branches on the real keeper: the 1 % float test
 // one raw decimal unit below and exactly at the boundary, a flipped ranking, traits added /
 // permuted / replaced, a re-spelt chain type, accounts added and re-ordered.  Whether each build is
@@ -1480,6 +1523,9 @@ func doHistory(t *testing.T, run *emit.Run, a *addrReg, r *rand.Rand, next *int6
 			chainOp(r.Intn(len(names)), r.Intn(2))
 		case x < 14:
 			h.build()
+			if ac := e.activeChains(); e.lastID > 0 && len(ac) > 0 && r.Intn(3) == 0 { // as an attested valset update would
+				h.setOnChain(1+uint64(r.Int63n(int64(e.lastID))), ac[r.Intn(len(ac))])
+			}
 		case x < 17:
 			onChainOp()
 		case x < 18:
@@ -1551,6 +1597,7 @@ func TestCorr(t *testing.T) {
 	quorumGapHistory(t, run, a, &next)
 	nearMissHistory(t, run, a, &next)
 	worthyBoundaryHistory(t, run, a, &next)
+	jitGateHistory(t, run, a, &next)
 	nHist := run.N / 5
 	nTr := run.N - nHist
 	for i := 0; i < nTr; i++ {
